@@ -442,6 +442,10 @@ func judgeCasters(args, real, drv json.RawMessage) *core.Verdict {
 			return core.Fail("casters-differ:"+k, fmt.Sprintf("cast table gives %v but the decode-time cast gives %v for %s %q", r.Table[k], r.Decode[k], k, a.S))
 		}
 	}
+	// direct: every text YAML resolves to an integer is cast to that integer
+	if r.Yamlint != nil && (fmt.Sprint(r.Table["int64"]) != fmt.Sprint(r.Yamlint) || fmt.Sprint(r.Table["int"]) != fmt.Sprint(r.Yamlint)) {
+		return core.Fail("casters:yaml-int-literal-differs", fmt.Sprintf("yaml.v3 reads the literal %q as %v but toInt gives %v and toInt64 %v", a.S, r.Yamlint, r.Table["int"], r.Table["int64"]))
+	}
 	var d map[string]any
 	if drv == nil || json.Unmarshal(drv, &d) != nil {
 		return core.Disagree("no driver answer")
@@ -460,10 +464,6 @@ func judgeCasters(args, real, drv json.RawMessage) *core.Verdict {
 		if fmt.Sprint(r.Ref[k]) != fmt.Sprint(r.Table[k]) {
 			return core.Disagree(fmt.Sprintf("reference float reading of %q (%s) = %v but the caster gives %v", a.S, k, r.Ref[k], r.Table[k]))
 		}
-	}
-	// direct: every text YAML resolves to an integer is cast to that integer
-	if r.Yamlint != nil && (fmt.Sprint(r.Table["int64"]) != fmt.Sprint(r.Yamlint) || fmt.Sprint(r.Table["int"]) != fmt.Sprint(r.Yamlint)) {
-		return core.Fail("casters:yaml-int-literal-differs", fmt.Sprintf("yaml.v3 reads the literal %q as %v but toInt gives %v and toInt64 %v", a.S, r.Yamlint, r.Table["int"], r.Table["int64"]))
 	}
 	if fmt.Sprint(d["bool"]) != fmt.Sprint(r.Table["bool"]) {
 		return core.Disagree(fmt.Sprintf("Interp.parseBool(%q)=%v but toBoolean=%v", a.S, d["bool"], r.Table["bool"]))
